@@ -95,8 +95,27 @@ func runC15(t *fw.T) {
 			kinds[k.name] = true
 			return k.mk(r, serial)
 		}}
+	// a third of the sources ends directly behind its last token (no trailing line break)
+	if r.IntN(3) == 0 {
+		lay.NoTrailingNL = true
+		t.Count("sources_without_trailing_line_break", 1)
+	}
+	// one source in six leaves its innermost blocks open at end of input and is parsed in tolerant mode (which accepts
+	// that, keeping every complete statement): the comments after the last statement now stand before the end of input
+	mode := Mode{}
+	plainLay := gen.Layout{Semi: 1, Space: 1, StmtNL: 1}
+	if r.IntN(6) == 0 {
+		lay.CutBrace = 1 + r.IntN(3)
+		plainLay.CutBrace = lay.CutBrace
+		mode = Mode{Tolerant: true}
+	}
 	rd := gen.Render(prog, r, gen.EmitOpts{Quote: 0}, lay)
-	plain := gen.Render(prog, r, gen.EmitOpts{Quote: 0}, gen.Layout{Semi: 1, Space: 1, StmtNL: 1})
+	plain := gen.Render(prog, r, gen.EmitOpts{Quote: 0}, plainLay)
+	if rd.CutBraces > 0 {
+		t.Count("sources_with_blocks_left_open_parsed_in_tolerant_mode", 1)
+	} else {
+		mode = Mode{}
+	}
 	for k := range kinds {
 		t.Feature("payload-kinds", k)
 	}
@@ -105,7 +124,7 @@ func runC15(t *fw.T) {
 	// a third of the sources is parsed through a token-rewriting plugin: a token interceptor that obtains each token from
 	// next() and re-issues it with the lexer's own NewTokenAt (what a plugin does that retypes or merges tokens). The
 	// re-issued token is the same token, so everything the property says about comments must hold unchanged.
-	reissue := r.IntN(3) == 0
+	reissue := r.IntN(3) == 0 && !mode.Tolerant
 	if reissue {
 		t.Count("sources_parsed_through_a_token_reissuing_plugin", 1)
 	}
@@ -113,9 +132,9 @@ func runC15(t *fw.T) {
 		if reissue {
 			po = parseReissue(rd.Src)
 		} else {
-			po = parse(rd.Src, Mode{})
+			po = parse(rd.Src, mode)
 		}
-		pp = parse(plain.Src, Mode{})
+		pp = parse(plain.Src, mode)
 	}) {
 		return
 	}
@@ -160,6 +179,11 @@ func runC15(t *fw.T) {
 	}
 	// ---- pretty
 	cfgs := []Cfg{CfgPretty, prettyCfgs()[r.IntN(20)]}
+	// every second case prints through this worker's long-lived Compiler values (the printer is a value users keep)
+	reused := (t.Index/16)%2 == 1
+	if reused {
+		t.Count("programs_printed_through_long_lived_compilers", 1)
+	}
 	if t.Thorough() {
 		cfgs = append(cfgs, prettyCfgs()[r.IntN(20)], prettyCfgs()[r.IntN(20)])
 	}
@@ -191,9 +215,16 @@ func runC15(t *fw.T) {
 	for _, c := range cfgs {
 		var pretty, prettyPlain string
 		w := func() map[string]any {
-			return map[string]any{"source": rd.Src, "options": c.String(), "formatted": pretty}
+			return map[string]any{"source": rd.Src, "options": c.String(), "formatted": pretty, "long_lived_compiler": reused, "parser_mode": mode.String()}
 		}
-		if !t.Guard("pretty", w, func() { pretty = c.Compile(po.Prog).Code; prettyPlain = c.Compile(pp.Prog).Code }) {
+		if !t.Guard("pretty", w, func() {
+			if reused {
+				pretty = c.CompileReused(po.Prog).Code
+			} else {
+				pretty = c.Compile(po.Prog).Code
+			}
+			prettyPlain = c.Compile(pp.Prog).Code
+		}) {
 			continue
 		}
 		t.Count("pretty_outputs_checked", 1)
@@ -228,7 +259,9 @@ func runC15(t *fw.T) {
 		if bad {
 			continue
 		}
-		if len(outToksF) != len(srcToksF) {
+		// a printer may or may not write the closing braces of blocks that the (tolerantly parsed) source left open
+		sameToks := len(outToksF) == len(srcToksF) || len(outToksF) == len(srcToksF)+rd.CutBraces
+		if !sameToks {
 			t.Inconclusive("token count of output differs from source (printer adds/removes tokens): comment placement compared by text only", rd.Src)
 		}
 		// every comment exactly once, verbatim, in order, in front of the same token
@@ -260,7 +293,7 @@ func runC15(t *fw.T) {
 				bad = true
 				break
 			}
-			if len(outToksF) == len(srcToksF) && outComments[i].next != srcComments[i].next {
+			if sameToks && outComments[i].next != srcComments[i].next {
 				t.Violate("comment-moved", boundaryOf(rd, i), fmt.Sprintf("comment #%d %q precedes significant token #%d in the source but #%d in the formatted output", i, srcComments[i].text, srcComments[i].next, outComments[i].next), w())
 				bad = true
 				break
@@ -270,7 +303,7 @@ func runC15(t *fw.T) {
 			continue
 		}
 		// blank-line separation between sibling statements is kept
-		if len(outToksF) == len(srcToksF) {
+		if sameToks {
 			// map filtered token index -> has blank run in its preceding gap (output)
 			blankBefore := map[int]bool{}
 			k := 0
